@@ -21,7 +21,7 @@ COMPONENTS = {
     "stub": ["detections come from a simulated scene + sensor model, not from a network", "no images (FlowShiftTracker not exercised)"],
 }
 ASSUMPTIONS = [
-    "every detection has at least 2 visible keypoints and a finite score",
+    "every detection has at least 1 visible keypoint and a finite score (zero-width / zero-height / point-sized boxes included)",
     "max_tracks is None (the documented 'Exceeding max tracks' exception is by design and outside the statement)",
     "FlowShiftTracker (needs images / optical flow) is not simulated",
 ]
@@ -41,7 +41,7 @@ def gen_scene(rng, K, F, n_nodes, spread=400.0, step=6.0, size=8.0):
             {
                 "pos": [rng.uniform(0, spread), rng.uniform(0, spread)],
                 "vel": [rng.uniform(-step, step), rng.uniform(-step, step)],
-                "offs": tw.shape_offsets(rng, n_nodes, size),
+                "offs": tw.shape_offsets(rng, n_nodes, size, degenerate=rng.choice([None] * 8 + ["vertical", "horizontal"])),
             }
         )
     frames = []
@@ -50,7 +50,8 @@ def gen_scene(rng, K, F, n_nodes, spread=400.0, step=6.0, size=8.0):
         for a, an in enumerate(animals):
             an["pos"][0] += an["vel"][0] + rng.uniform(-1, 1)
             an["pos"][1] += an["vel"][1] + rng.uniform(-1, 1)
-            pts = [[round(an["pos"][0] + o[0] + rng.uniform(-0.5, 0.5), 2), round(an["pos"][1] + o[1] + rng.uniform(-0.5, 0.5), 2)] for o in an["offs"]]
+            jx, jy = rng.uniform(-0.5, 0.5), rng.uniform(-0.5, 0.5)  # the whole body jitters (degenerate shapes stay exactly axis-aligned)
+            pts = [[round(an["pos"][0] + o[0] + jx, 2), round(an["pos"][1] + o[1] + jy, 2)] for o in an["offs"]]
             fr.append({"animal": a, "pts": pts, "score": round(rng.uniform(0.75, 1.0), 3)})
         frames.append(fr)
     return frames
@@ -118,8 +119,9 @@ def gen_plan(rng, index, tier):
                 if rng.random() < 0.25:
                     vis = list(range(n_nodes))
                     rng.shuffle(vis)
-                    for j in vis[2:]:
-                        if rng.random() < 0.6:
+                    keep = 1 if rng.random() < 0.25 else 2  # sometimes a single visible keypoint (a point-sized bounding box)
+                    for j in vis[keep:]:
+                        if rng.random() < 0.6 or keep == 1:
                             d["pts"][j] = [float("nan"), float("nan")]
                     fire("missing_keypoints")
         if "duplicate_detection" in enabled and fr and rng.random() < 0.2:
@@ -205,6 +207,7 @@ def execute(plan, choices=None):
         "gap_longer_than_window": int(_max_gap(frames) > plan["cfg"]["window_size"]),
         "more_detections_than_tracks": int(res["stats"]["max_tracks_seen"] > 0 and any(len(fr) > res["stats"]["max_tracks_seen"] for fr in frames)),
         "two_trackers_share_process": int(bool(plan.get("two_trackers"))),
+        "degenerate_bbox_detection": int(any(_degenerate(d["pts"]) for fr in frames for d in fr)),
         "tracks_created_max": res["stats"]["max_tracks_seen"],
     }
     return {
@@ -233,3 +236,8 @@ def _max_gap(frames):
                 best = max(best, t - last[a] - 1)
             last[a] = t
     return best
+
+
+def _degenerate(pts):
+    v = [p for p in pts if p[0] == p[0]]
+    return len(v) >= 1 and (len({p[0] for p in v}) == 1 or len({p[1] for p in v}) == 1)
